@@ -135,7 +135,7 @@ class Gen:
             "dims": dims_text(toks),
             "toks": toks,
         }
-        if toks and r.random() < 0.12:
+        if toks and "+" not in spec["atype"] and r.random() < 0.12:
             # built in the nested spelling Outer[Inner[T, toks[k:]], toks[:k]] (same meaning; see ctxsim.World.ann)
             spec["split"] = [r.randrange(0, len(toks) + 1), r.choice(("shaped", "same"))]
         return self.add_ann(spec)
